@@ -35,6 +35,15 @@ func hasCallGuard(b *ssa.BasicBlock, callee func(*ssa.Call) bool, pol bool) bool
 	return false
 }
 
+// hasCallGuardAt: like hasCallGuard, for an instruction: also through callers of a private helper and through the
+// outcome of a validation helper (Prog.factHolds).
+func hasCallGuardAt(p *Prog, in ssa.Instruction, callee func(*ssa.Call) bool, pol bool) bool {
+	return p.factHolds(in, func(g Guard) bool {
+		c, ok := g.Cond.(*ssa.Call)
+		return ok && callee(c) && g.Pol == pol
+	}, 0)
+}
+
 func isNamedCall(pkg, name string) func(*ssa.Call) bool {
 	return func(c *ssa.Call) bool {
 		f := c.Call.StaticCallee()
@@ -78,6 +87,36 @@ func nonZeroDefsGuarded(v ssa.Value, guard func(b *ssa.BasicBlock) bool, depth i
 						if ok, why := nonZeroDefsGuardedAt(st.Val, st.Block(), guard, depth+1); !ok {
 							return false, why
 						}
+					}
+				}
+				return true, ""
+			}
+		}
+	}
+	// the result of a helper of the same package (dhtAnnouncePort(t, ipv6), trackerPorts(t)): every value it can
+	// return is zero or chosen under the gate inside the helper
+	{
+		var call *ssa.Call
+		idx := 0
+		switch x := v.(type) {
+		case *ssa.Call:
+			call = x
+		case *ssa.Extract:
+			call, _ = x.Tuple.(*ssa.Call)
+			idx = x.Index
+		}
+		if call != nil && !call.Call.IsInvoke() {
+			if h := call.Call.StaticCallee(); h != nil && h.Blocks != nil && strings.HasPrefix(funcPkgPath(h), modPath) && call.Parent() != nil && funcPkgPath(h) == funcPkgPath(call.Parent()) {
+				if guard(call.Block()) {
+					return true, ""
+				}
+				for _, ret := range returnsOf(h) {
+					res := retResults(ret)
+					if idx >= len(res) {
+						return false, "helper result missing"
+					}
+					if ok, why := nonZeroDefsGuardedAt(res[idx], ret.Block(), guard, depth+1); !ok {
+						return false, why + " (in " + fname(h) + ")"
 					}
 				}
 				return true, ""
@@ -285,7 +324,7 @@ func c18R1(r *Report) {
 				}
 				for _, cs := range calls {
 					in := cs.(ssa.Instruction)
-					ok := hasCallGuard(in.Block(), isHW, true)
+					ok := hasCallGuardAt(p, in, isHW, true)
 					r.Check(ok, "R1", nm+"/behind-hasWebseeds/"+fname(cs.Parent()), cs.Pos(), "a web-seed fetch is started only behind hasWebseeds(t)", nm+" is started on a path not dominated by hasWebseeds(t) == true: web seeds are contacted although web-seed use is disabled")
 				}
 				r.Sentinel("R1."+nm, len(calls), 1)
@@ -373,7 +412,7 @@ func c18R1(r *Report) {
 		for _, ci := range callsIn(srv) {
 			if np != nil && ci.Common().StaticCallee() == np {
 				in := ci.(ssa.Instruction)
-				r.Check(hasCallGuard(in.Block(), isTorHasProxy, false), "R1", "tor.Server/NewPeer-only-unproxied", ci.Pos(), "an incoming peer is created only for an unproxied torrent", "tor.Server creates a peer for an incoming connection without testing !t.hasProxy()")
+				r.Check(hasCallGuardAt(p, in, isTorHasProxy, false), "R1", "tor.Server/NewPeer-only-unproxied", ci.Pos(), "an incoming peer is created only for an unproxied torrent", "tor.Server creates a peer for an incoming connection without testing !t.hasProxy()")
 			}
 		}
 		if r.Anchor("R1", "tor.infoHashes", ih != nil) {
@@ -498,7 +537,8 @@ func c18R2(r *Report) {
 			}
 			// reads: loop-confined, except the named exception
 			if why, out := outside[named]; out {
-				if named.Name() == "announce" && fld == "dhtMode" {
+				ann := p.Func("tor", "Torrent.announce")
+				if fld == "dhtMode" && (named.Name() == "announce" || (ann != nil && relPkg(named) == "tor" && p.inUnitOf(named, ann))) {
 					r.Ok("R2", key, acc.Instr.Pos(), "exception: AddTorrent calls t.announce from the adding goroutine right after starting the loop, before the handle is returned; it reads the value New stored")
 					continue
 				}
